@@ -150,6 +150,10 @@ def main():
             import c03_e2e
             pr = c03_e2e.burst(REPLAY["rootkind"], REPLAY.get("which", "rename")) if REPLAY["op"] == "burst" else c03_e2e.run_op(REPLAY["op"], REPLAY["recursive"], REPLAY.get("split", False))
             replay_result(bool(pr), pr[:2])
+        if REPLAY is not None and REPLAY.get("kind") == "history":
+            import c03_e2e
+            pr = c03_e2e.history(REPLAY["name"], REPLAY.get("rootkind", "str"))
+            replay_result(bool(pr), pr[:2])
         if REPLAY is not None and REPLAY.get("kind") == "phantom":
             pr = phantom()
             replay_result(bool(pr), pr[:2])
@@ -201,6 +205,14 @@ def main():
                         pr = c03_e2e.run_op(name, recursive, split)
                         if pr:
                             bat.fail(f"{WHICH}.per-operation-contract", pr[0], {"kind": "e2e", "op": name, "recursive": recursive, "split": split, "problems": pr[:2]}, "InotifyEmitter.queue_events")
+        if WHICH in ("C03", "C19"):
+            import c03_e2e
+            for name in c03_e2e.HISTORIES:
+                for rk in ("str",):
+                    bat.case(("history", name, rk))
+                    pr = c03_e2e.history(name, rk)
+                    if pr:
+                        bat.fail(f"{WHICH}.history-paths", pr[0], {"kind": "history", "name": name, "rootkind": rk, "problems": pr[:2]}, "Inotify.read_events")
         if WHICH == "C03":
             bat.case("phantom-after-move-out")
             pr = phantom()
